@@ -12,99 +12,13 @@
 //   A vs C: the shim does not change the result.
 // Different seeds of one configuration must give different snapshots (otherwise
 // the comparison above would be vacuous).
-#include "verif_common.hpp"
-
-#include <dirent.h>
-#include <fcntl.h>
-#include <hdf5.h>
-#include <sys/wait.h>
+#include "c13_problem.hpp"
 
 using namespace verif;
-
-struct Config {
-  const char *name;
-  const char *writer; // AsciiFile | Gadget
-  int nc[3];
-  int ns[3];
-  bool periodic[3];
-  bool diffuse;
-  bool continuous;
-  bool physical; // Planck + Verner + helium + temperature calculation
-  int photons;
-  int iterations;
-  int copy_level;
-  bool every_iteration;
-  bool thorough_only;
-};
-
-static const Config CONFIGS[] = {
-    {"ascii-direct", "AsciiFile", {4, 4, 4}, {2, 1, 1}, {false, false, false}, false, false, false, 2000, 3, 0, false, false},
-    {"hdf5-diffuse", "Gadget", {8, 8, 4}, {2, 2, 1}, {false, false, false}, true, false, false, 1500, 2, 1, false, false},
-    {"hdf5-diffuse-continuous", "Gadget", {4, 4, 4}, {1, 2, 2}, {false, false, false}, true, true, false, 1500, 2, 0, false, false},
-    {"ascii-physical", "AsciiFile", {4, 4, 4}, {2, 2, 1}, {false, false, false}, true, false, true, 3000, 3, 0, false, true},
-    {"hdf5-direct-fine-every-iteration", "Gadget", {8, 8, 8}, {2, 2, 2}, {false, false, false}, false, false, false, 4000, 3, 2, true, true},
-    {"ascii-periodic", "AsciiFile", {4, 4, 6}, {2, 1, 3}, {true, true, false}, true, false, false, 2000, 2, 0, false, true},
-};
-
-static std::string param_text(const Config &c, long seed) {
-  std::string s;
-  s += "SimulationBox:\n  anchor: [-5. pc, -5. pc, -5. pc]\n  sides: [10. pc, 10. pc, 10. pc]\n";
-  s += fmt("DensityGrid:\n  type: Cartesian\n  periodicity: [%s, %s, %s]\n  number of cells: [%d, %d, %d]\n",
-           c.periodic[0] ? "true" : "false", c.periodic[1] ? "true" : "false",
-           c.periodic[2] ? "true" : "false", c.nc[0], c.nc[1], c.nc[2]);
-  s += fmt("DensitySubGridCreator:\n  number of subgrids: [%d, %d, %d]\n", c.ns[0], c.ns[1], c.ns[2]);
-  s += "DensityFunction:\n  type: Homogeneous\n  density: 100. cm^-3\n  temperature: 8000. K\n";
-  s += "PhotonSourceDistribution:\n  type: SingleStar\n  position: [0.3 pc, -0.2 pc, 0.1 pc]\n  luminosity: 4.26e49 s^-1\n";
-  s += fmt("TaskBasedIonizationSimulation:\n  random seed: %ld\n  number of buffers: 4096\n  number of tasks: 20000\n"
-           "  queue size per thread: 4096\n  shared queue size: 4096\n  source copy level: %d\n"
-           "  number of photons: %d\n  number of iterations: %d\n  diffuse field: %s\n",
-           seed, c.copy_level, c.photons, c.iterations, c.diffuse ? "true" : "false");
-  s += fmt("DensityGridWriter:\n  type: %s\n  prefix: snap\n  padding: 3\n", c.writer);
-  if (c.physical) {
-    s += "Abundances:\n  helium: 0.1\n";
-    s += "TemperatureCalculator:\n  do temperature calculation: true\n";
-    s += "PhotonSourceSpectrum:\n  type: Planck\n  temperature: 40000. K\n";
-    s += "CrossSections:\n  type: Verner\nRecombinationRates:\n  type: Verner\n";
-    s += "DiffuseReemissionHandler:\n  type: Physical\n";
-  } else {
-    s += "Abundances:\n  helium: 0.\n";
-    s += "TemperatureCalculator:\n  do temperature calculation: false\n";
-    s += "PhotonSourceSpectrum:\n  type: Monochromatic\n  frequency: 3.28847e+15 Hz\n";
-    s += "RecombinationRates:\n  type: FixedValue\n  hydrogen_1: 4.e-13 cm^3 s^-1\n  helium_1: 0. m^3 s^-1\n";
-    for (const char *n : {"carbon_2", "carbon_3", "nitrogen_1", "nitrogen_2", "nitrogen_3", "oxygen_1", "oxygen_2",
-                          "neon_1", "neon_2", "sulphur_2", "sulphur_3", "sulphur_4"})
-      s += fmt("  %s: 0. m^3 s^-1\n", n);
-    s += "CrossSections:\n  type: FixedValue\n  hydrogen_0: 6.3e-18 cm^2\n  helium_0: 0. m^2\n";
-    for (const char *n : {"carbon_1", "carbon_2", "nitrogen_0", "nitrogen_1", "nitrogen_2", "oxygen_0", "oxygen_1",
-                          "neon_0", "neon_1", "sulphur_1", "sulphur_2", "sulphur_3"})
-      s += fmt("  %s: 0. m^2\n", n);
-    if (c.diffuse)
-      s += "DiffuseReemissionHandler:\n  type: FixedValue\n  reemission probability: 0.5\n  reemission frequency: 3.4e15 Hz\n";
-  }
-  if (c.continuous)
-    s += "ContinuousPhotonSource:\n  type: Isotropic\nContinuousPhotonSourceSpectrum:\n  type: Monochromatic\n"
-         "  frequency: 3.28847e+15 Hz\n  total flux: 1.e13 m^-2 s^-1\n";
-  return s;
-}
+using namespace c13;
 
 static std::string g_exe, g_shim, g_dir;
 
-static void wipe(const std::string &d) {
-  DIR *dir = opendir(d.c_str());
-  if (!dir) {
-    mkdir(d.c_str(), 0700);
-    return;
-  }
-  std::vector< std::string > n;
-  while (struct dirent *e = readdir(dir))
-    if (strcmp(e->d_name, ".") && strcmp(e->d_name, ".."))
-      n.push_back(e->d_name);
-  closedir(dir);
-  for (auto &f : n)
-    unlink((d + "/" + f).c_str());
-}
-
-typedef std::map< std::string, std::string > Files;
 struct Run {
   int rc = -1;
   Files files;
@@ -112,12 +26,7 @@ struct Run {
 };
 static Run run_once(const Config &c, long seed, bool shim) {
   wipe(g_dir);
-  {
-    FILE *f = fopen((g_dir + "/run.param").c_str(), "w");
-    const std::string p = param_text(c, seed);
-    fwrite(p.data(), 1, p.size(), f);
-    fclose(f);
-  }
+  write_problem(g_dir, c, seed);
   fflush(stdout);
   pid_t pid = fork();
   if (pid == 0) {
@@ -145,166 +54,8 @@ static Run run_once(const Config &c, long seed, bool shim) {
   }
   Run r;
   r.rc = WIFEXITED(st) ? WEXITSTATUS(st) : 1000 + WTERMSIG(st);
-  DIR *dir = opendir(g_dir.c_str());
-  while (struct dirent *e = readdir(dir)) {
-    std::string n = e->d_name;
-    if (n == "." || n == "..")
-      continue;
-    if (n == "run.log")
-      r.log = read_file(g_dir + "/" + n);
-    else
-      r.files[n] = read_file(g_dir + "/" + n);
-  }
-  closedir(dir);
+  r.files = read_dir(g_dir, &r.log);
   return r;
-}
-static bool is_snapshot(const std::string &n) { return n.compare(0, 4, "snap") == 0; }
-static bool is_hdf5(const std::string &n) { return n.size() > 5 && n.substr(n.size() - 5) == ".hdf5"; }
-
-// ---- canonical content of an HDF5 file through the library ----
-struct Canon {
-  std::vector< std::string > lines;
-  std::string error;
-};
-static std::string hexhash(const void *p, size_t n) { return fmt("%zu bytes fnv %016" PRIx64, n, fnv1a(p, n)); }
-static std::string space_str(hid_t space) {
-  int nd = H5Sget_simple_extent_ndims(space);
-  hsize_t dims[8] = {0};
-  if (nd > 0 && nd <= 8)
-    H5Sget_simple_extent_dims(space, dims, nullptr);
-  std::string s = "[";
-  for (int i = 0; i < nd; ++i)
-    s += fmt("%s%llu", i ? "," : "", (unsigned long long)dims[i]);
-  return s + "]";
-}
-static std::string type_str(hid_t t) {
-  return fmt("class%d/size%zu%s", (int)H5Tget_class(t), H5Tget_size(t),
-             H5Tis_variable_str(t) > 0 ? "/vlen" : "");
-}
-static void canon_attrs(hid_t obj, const std::string &path, Canon &c) {
-  H5O_info_t oi;
-  if (H5Oget_info(obj, &oi) < 0) {
-    c.error = "H5Oget_info failed at " + path;
-    return;
-  }
-  for (hsize_t i = 0; i < oi.num_attrs; ++i) {
-    hid_t a = H5Aopen_by_idx(obj, ".", H5_INDEX_NAME, H5_ITER_INC, i, H5P_DEFAULT, H5P_DEFAULT);
-    if (a < 0) {
-      c.error = "cannot open attribute at " + path;
-      return;
-    }
-    char name[256];
-    H5Aget_name(a, sizeof(name), name);
-    hid_t t = H5Aget_type(a), sp = H5Aget_space(a);
-    const hssize_t np = H5Sget_simple_extent_npoints(sp);
-    std::string value;
-    if (H5Tis_variable_str(t) > 0) {
-      std::vector< char * > buf((size_t)std::max< hssize_t >(np, 1), nullptr);
-      hid_t mt = H5Tcopy(H5T_C_S1);
-      H5Tset_size(mt, H5T_VARIABLE);
-      if (H5Aread(a, mt, buf.data()) < 0)
-        c.error = "cannot read attribute " + path + "@" + name;
-      for (hssize_t k = 0; k < np; ++k)
-        value += std::string("\"") + (buf[k] ? buf[k] : "") + "\"";
-      H5Dvlen_reclaim(mt, sp, H5P_DEFAULT, buf.data());
-      H5Tclose(mt);
-    } else {
-      std::string raw((size_t)np * H5Tget_size(t), '\0');
-      if (np > 0 && H5Aread(a, t, &raw[0]) < 0)
-        c.error = "cannot read attribute " + path + "@" + name;
-      if (H5Tget_class(t) == H5T_STRING)
-        value = "\"" + std::string(raw.c_str()) + "\"";
-      else if (raw.size() <= 32) {
-        for (unsigned char ch : raw)
-          value += fmt("%02x", ch);
-      } else
-        value = hexhash(raw.data(), raw.size());
-    }
-    c.lines.push_back(path + " @" + name + " " + type_str(t) + " " + space_str(sp) + " = " + value);
-    H5Tclose(t);
-    H5Sclose(sp);
-    H5Aclose(a);
-  }
-}
-static herr_t visit_cb(hid_t root, const char *name, const H5O_info_t *info, void *data) {
-  Canon &c = *(Canon *)data;
-  const std::string path = std::string("/") + (strcmp(name, ".") ? name : "");
-  hid_t obj = H5Oopen(root, name, H5P_DEFAULT);
-  if (obj < 0) {
-    c.error = "cannot open " + path;
-    return -1;
-  }
-  if (info->type == H5O_TYPE_GROUP)
-    c.lines.push_back(path + " group");
-  else if (info->type == H5O_TYPE_DATASET) {
-    hid_t t = H5Dget_type(obj), sp = H5Dget_space(obj);
-    const hssize_t np = H5Sget_simple_extent_npoints(sp);
-    if (H5Tis_variable_str(t) > 0 || H5Tget_class(t) == H5T_VLEN)
-      c.error = "variable-length dataset not supported: " + path;
-    else {
-      std::string raw((size_t)np * H5Tget_size(t), '\0');
-      if (np > 0 && H5Dread(obj, t, H5S_ALL, H5S_ALL, H5P_DEFAULT, &raw[0]) < 0)
-        c.error = "cannot read dataset " + path;
-      c.lines.push_back(path + " dataset " + type_str(t) + " " + space_str(sp) + " = " +
-                        hexhash(raw.data(), raw.size()));
-    }
-    H5Tclose(t);
-    H5Sclose(sp);
-  } else
-    c.lines.push_back(path + fmt(" object-type-%d", (int)info->type));
-  canon_attrs(obj, path, c);
-  H5Oclose(obj);
-  return c.error.empty() ? 0 : -1;
-}
-static Canon canon_hdf5(const std::string &bytes) {
-  Canon c;
-  const std::string tmp = g_dir + "/../c13_canon.hdf5";
-  {
-    FILE *f = fopen(tmp.c_str(), "wb");
-    fwrite(bytes.data(), 1, bytes.size(), f);
-    fclose(f);
-  }
-  hid_t file = H5Fopen(tmp.c_str(), H5F_ACC_RDONLY, H5P_DEFAULT);
-  if (file < 0) {
-    c.error = "not an HDF5 file";
-    return c;
-  }
-  H5Ovisit(file, H5_INDEX_NAME, H5_ITER_INC, visit_cb, &c);
-  H5Fclose(file);
-  unlink(tmp.c_str());
-  return c;
-}
-static bool masked(const std::string &line) { return line.find(" @Creation time ") != std::string::npos; }
-/// "" if equal, else a description of the first difference
-static std::string compare_snapshot(const std::string &name, const std::string &a, const std::string &b,
-                                    uint64_t &masked_lines, uint64_t &objects) {
-  if (!is_hdf5(name)) {
-    if (a == b)
-      return "";
-    size_t i = 0;
-    while (i < a.size() && i < b.size() && a[i] == b[i])
-      ++i;
-    size_t ls = a.rfind('\n', i);
-    ls = ls == std::string::npos ? 0 : ls + 1;
-    return fmt("text differs at byte %zu: \"%s\" vs \"%s\"", i,
-               a.substr(ls, std::min< size_t >(100, a.find('\n', i) - ls)).c_str(),
-               b.substr(ls, std::min< size_t >(100, b.find('\n', i) - ls)).c_str());
-  }
-  Canon ca = canon_hdf5(a), cb = canon_hdf5(b);
-  if (!ca.error.empty() || !cb.error.empty())
-    return "HDF5 traversal failed: " + ca.error + " / " + cb.error;
-  objects += ca.lines.size();
-  if (ca.lines.size() != cb.lines.size())
-    return fmt("different number of objects/attributes: %zu vs %zu", ca.lines.size(), cb.lines.size());
-  for (size_t i = 0; i < ca.lines.size(); ++i) {
-    if (masked(ca.lines[i]) && masked(cb.lines[i])) {
-      ++masked_lines;
-      continue;
-    }
-    if (ca.lines[i] != cb.lines[i])
-      return "HDF5 content differs: " + ca.lines[i] + "  vs  " + cb.lines[i];
-  }
-  return "";
 }
 
 struct Totals {
@@ -401,14 +152,7 @@ static void check_case(const Config &c, long seed, Result &R, Totals &T,
   // the state must really have been changed by the photons, and the seed must matter
   if (snaps.size() >= 2) {
     const std::string &first = r[0].files[snaps.front()], &last = r[0].files[snaps.back()];
-    std::string key = last;
-    if (is_hdf5(snaps.back())) {
-      Canon cc = canon_hdf5(last);
-      key.clear();
-      for (auto &l : cc.lines)
-        if (!masked(l))
-          key += l + "\n";
-    }
+    const std::string key = content_key(snaps.back(), last);
     const bool changed = first.size() != last.size() || first != last;
     bool seed_matters = true;
     for (auto &kv : final_by_seed) {
@@ -444,6 +188,7 @@ int main(int argc, char **argv) {
   const std::string tmp = fast_tmpdir();
   g_dir = tmp + "/c13_run";
   mkdir(g_dir.c_str(), 0700);
+  g_canon_tmp = tmp + "/c13_canon.hdf5";
   H5Eset_auto(H5E_DEFAULT, nullptr, nullptr);
   R.rule = "one case = (run configuration, seed): the real executable is run 4 times with --threads 1 "
            "(2 plain, 2 with the calendar second pinned) and all snapshot files are compared (content through "
@@ -474,11 +219,18 @@ int main(int argc, char **argv) {
     remove_fast_tmpdir(tmp);
     return R.finish(A);
   }
-  size_t ncfg = 0;
+  size_t ncfg = 0, nmulti = 0, nleft = 0;
+  std::string cfglist = "[";
   for (const Config &c : CONFIGS) {
-    if (c.thorough_only && !A.thorough() && A.geti("quick-all-configs", 1) == 0)
-      continue;
     ++ncfg;
+    nmulti += c.nsources >= 2;
+    nleft += leftover_packets(c) > 0;
+    cfglist += fmt("%s{\"name\": \"%s\", \"cells\": [%d,%d,%d], \"subgrids\": [%d,%d,%d], \"sources\": %d, "
+                   "\"packets\": %d, \"packets_left_over_after_rounding\": %ld, \"copy_level\": %d, "
+                   "\"helium_physical_diffuse\": %s, \"continuous_source\": %s}",
+                   ncfg > 1 ? ", " : "", c.name, c.nc[0], c.nc[1], c.nc[2], c.ns[0], c.ns[1], c.ns[2], c.nsources,
+                   c.photons, leftover_packets(c), c.copy_level, c.physical ? "true" : "false",
+                   c.continuous ? "true" : "false");
     std::map< std::string, std::string > final_by_seed;
     for (long sd : seeds) {
       if (R.out_of_time()) {
@@ -489,6 +241,9 @@ int main(int argc, char **argv) {
     }
   }
   R.set("configurations", (double)ncfg);
+  R.set("configurations_with_two_or_more_sources", (double)nmulti);
+  R.set("configurations_with_left_over_packets", (double)nleft);
+  R.set_json("configuration_list", cfglist + "]");
   R.set("seeds_per_configuration", (double)seeds.size());
   R.set("runs", (double)T.runs);
   R.set("snapshot_pairs_content", (double)T.snapshot_pairs);
